@@ -77,6 +77,33 @@ func Loc(name string) *time.Location {
 			return time.FixedZone(rest[:i], off)
 		}
 	}
+	if strings.HasPrefix(name, "Synthetic/SkipsMidnightInDays/") {
+		// "Synthetic/SkipsMidnightInDays/<n>": a zone at UTC-4 whose NEXT clock change removes the local midnight of the day n days
+		// from today (n may be negative: it already happened)
+		fbMu.Lock()
+		defer fbMu.Unlock()
+		if l, ok := fbZones[name]; ok {
+			return l
+		}
+		n, neg := 0, false
+		for _, ch := range name[len("Synthetic/SkipsMidnightInDays/"):] {
+			if ch == '-' {
+				neg = true
+			} else if ch >= '0' && ch <= '9' {
+				n = n*10 + int(ch-'0')
+			}
+		}
+		if neg {
+			n = -n
+		}
+		day := time.Now().UTC().AddDate(0, 0, n)
+		l := SkipsMidnightAt(day.Year(), day.Month(), day.Day())
+		if l == nil {
+			l = time.UTC
+		}
+		fbZones[name] = l
+		return l
+	}
 	if strings.HasPrefix(name, "Synthetic/FallsBackIn/") {
 		// "Synthetic/FallsBackIn/<minutes>": the clock falls back <minutes> from now (negative: it did so that many minutes ago);
 		// built once per process and name
